@@ -257,8 +257,6 @@ Proof.
   pose proof (mig_find_del_same hs (t_migs t)) as P. rewrite H, F in P. discriminate.
 Qed.
 
-Definition ver_small : N := 9223372036854775808. (* 2^63 *)
-
 Lemma bump_lt v : v < u64max -> bump v = v + 1.
 Proof. unfold bump, wrap64, u64max. intro H. apply N.mod_small. lia. Qed.
 
